@@ -8,6 +8,7 @@ HOOKS = {
 }
 ENGINES = [
     {"name": "lean-model", "path": "lean/PopsModel", "serves_properties": [], "kind_free_text": "Lean 4 model (Model/), lemmas (Lemmas/), property theorems (Props/), core-only executable driver (Driver/)"},
+    {"name": "h_mmodel", "path": "harness/h_mmodel.cpp", "serves_properties": [], "kind_free_text": "C++ correspondence harness: Model::run_step through the multi-host entry point with 2-3 host pools, pest-host and competency tables from Config rows, scripted engine, injected kernel, every host's state after every action block and every single landing"},
     {"name": "h_date", "path": "harness/h_date.cpp", "serves_properties": ["C07", "C08"], "kind_free_text": "C++ correspondence harness: Date, Scheduler, schedule builders; exhaustive 400-year cycle in thorough"},
 ]
 NOTES = ("Technique: machine-checked proof in Lean 4 about a hand-written model, tied to /repo's working tree on every run by a "
